@@ -53,7 +53,7 @@ def cases(tier, seed):
                 out.append(dict(film=f, holes="circle", terminals=2, mel=mel, min_points=mp, smooth=sm, xi=xi))
         # histories: the checked mesh is not the first one made for the device object
         for f in ("box33", "tee", "notched"):
-            for hist in ("remesh_finer", "remesh_coarser", "translated_inplace", "copy_translated", "translation_context"):
+            for hist in ("remesh_finer", "remesh_coarser", "translated_inplace", "copy_translated", "translation_context", "terminal_resized", "terminals_replaced"):
                 out.append(dict(film=f, holes="circle", terminals=2, mel=0.8, min_points=None, smooth=0, xi=1.0, history=hist))
     else:
         # terminals do not influence the mesh: the settings sweep is run with terminals, the no-terminal devices once
@@ -147,6 +147,19 @@ def run_case(case):
             other = dev.copy()
             other.translate(dx=1.7, dy=-0.9, inplace=True)
             _ = other.points, other.mesh.areas.sum()
+        if hist in ("terminal_resized", "terminals_replaced"):
+            # the terminals were queried for this mesh, then changed (in place / re-assigned) without re-meshing
+            before = {t.name: t.length for t in dev.terminal_info()}
+            res.count("terminal_queries_before_change", len(before))
+            if hist == "terminal_resized":
+                dev.terminals[0].scale(yfact=2.2, inplace=True)
+                dev.terminals[1].translate(dy=0.45, inplace=True)
+            else:
+                import tdgl as _tdgl
+                from tdgl.geometry import box as _box
+
+                xs_ = dev.film.points[:, 0]
+                dev.terminals = (_tdgl.Polygon("left", points=_box(0.5, 0.6, center=(xs_.min(), -0.3))), _tdgl.Polygon("right", points=_box(0.5, 1.8, center=(xs_.max(), 0.1))))
         if hist == "translation_context":
             # moved and moved back by the documented context manager; a copy was taken while it was moved
             with dev.translation(1.7, -0.9):
